@@ -10,6 +10,7 @@ import GldapModel.Directory.Store
 import GldapModel.Spec.ClientEncode
 import GldapModel.Gldap.Session
 import GldapModel.Directory.BindSession
+import Driver.ServerReplay
 /-! `gmodel`: one line in, one line out. The Go harness feeds the same cases to the real
     gldap and to this driver and diffs the two output streams. -/
 open Ber Gldap Driver
@@ -235,14 +236,18 @@ def replayConn (F : ConnLoop.Facts) (c : Nat) (evs : List Ev) : String := Id.run
     i := i + 1
   return "accept"
 
-def doTraceConn (evs : List Ev) : String :=
-  let evs := evs.filter (fun e => e.conn > 0 && (connEvOf e).isSome)
+def doTraceConn (all : List Ev) : String :=
+  let evs := all.filter (fun e => e.conn > 0 && (connEvOf e).isSome)
   if evs.isEmpty then "no-trace" else
   let conns := (evs.map (·.conn)).eraseDups
   let results := conns.map fun c => replayConn Generated.connFacts c (evs.filter (·.conn == c))
   match results.find? (· ≠ "accept") with
   | some r => r
-  | none => "accept"
+  | none =>
+    -- the same trace, all goroutines together, through the server life-cycle LTS
+    match ServerReplay.replay Generated.serverFacts (all.map fun e => ⟨e.label, e.conn, e.req⟩) with
+    | "no-trace" => "accept"
+    | v => v
 
 def renderEntry (e : Directory.Entry) : String :=
   hex e.dn ++ "{" ++ join ";" (e.attrs.map fun a => s!"{hex a.name}={join "," (a.values.map hex)}") ++ "}"
